@@ -116,6 +116,49 @@ def _loop_as_comp(lp: Event, var: Term) -> Optional[Term]:
     return ("comp", "list", expr, ((lp.term, () if cond == TRUE else (cond,)),))
 
 
+def dict_as_comp(path: Path, t: Term) -> Term:
+    """``t`` itself, or -- for a local dict that starts empty and is filled by exactly one loop with one unconditional ``d[k] = v`` per element (and by nothing
+    else) -- the dict comprehension ``{k: v for <elem> in <domain>}`` it abbreviates."""
+    if not (t[0] == "var" and len(t) == 4 and t[3] in (("dict", ()), ("call", "dict", (), ()))):
+        return t
+    fills = []
+    for e in path.events:
+        if e.kind == "store" and e.term is not None and e.term[0] == "store" and _is_var(e.term[1], t):
+            return t                                  # a store outside a loop: not a single comprehension
+        if e.kind == "effect" and e.term is not None and e.term[0] == "call" and isinstance(e.term[1], tuple) and e.term[1][0] == "attr" and _is_var(e.term[1][1], t) \
+                and e.term[1][2] in ("update", "pop", "clear", "setdefault", "popitem", "__setitem__", "__delitem__"):
+            return t
+        if e.kind == "loop":
+            touched = False
+            per_path = []
+            for bp in e.extra["paths"]:
+                st = [x.term for x in bp.events if x.kind == "store" and x.term is not None and x.term[0] == "store" and _is_var(x.term[1], t)]
+                nested = [x for x in bp.events if x.kind == "loop"]
+                if nested and any(_is_var(y.term[1], t) for n_ in nested for b2 in n_.extra["paths"] for y in b2.events if y.kind == "store" and y.term is not None and y.term[0] == "store"):
+                    return t
+                if st:
+                    touched = True
+                per_path.append((bp, st))
+            if touched:
+                if e.term is None or any(len(st) != 1 or bp.cond != TRUE or bp.exit not in ("fall", "continue") for bp, st in per_path):
+                    return t
+                if len({repr(st[0]) for _, st in per_path}) != 1:
+                    return t
+                fills.append((e, per_path[0][1][0]))
+    if len(fills) != 1:
+        return t
+    lp, st = fills[0]
+    if st[2][0] != "index":
+        return t
+    lineno = lp.node.lineno
+    elem = ("bound", "for", lineno, show(lp.term))
+    cb = ("bound", 0, 0, show(lp.term))
+    key, val = subst(st[2][1], {elem: cb}), subst(st[3], {elem: cb})
+    if subterms((key, val), lambda x: x[0] == "loopvar" and x[2] == lineno):
+        return t
+    return ("dictcomp", key, val, ((lp.term, ()),))
+
+
 def as_single_comp(path: Path, t: Term) -> Term:
     """``t`` itself, or -- for a local accumulator list that is exactly one comprehension -- that comprehension."""
     if t[0] == "var":
